@@ -6,8 +6,54 @@ pub struct Counting;
 static CUR: AtomicUsize = AtomicUsize::new(0);
 static PEAK: AtomicUsize = AtomicUsize::new(0);
 
+/// single requests above this size are refused while a case is registered: the request and the case
+/// are reported on stderr (without allocating) so that the check can name the failing input
+const CAP: usize = 1 << 30;
+static mut CASE_BUF: [u8; 4096] = [0; 4096];
+static CASE_LEN: AtomicUsize = AtomicUsize::new(0);
+
+/// register the input being processed (empty string: none)
+pub fn set_case(s: &str) {
+    let b = s.as_bytes();
+    let n = b.len().min(4096);
+    unsafe {
+        let buf = &mut *std::ptr::addr_of_mut!(CASE_BUF);
+        buf[..n].copy_from_slice(&b[..n]);
+    }
+    CASE_LEN.store(n, Ordering::SeqCst);
+}
+
+fn oversize(size: usize) -> bool {
+    let n = CASE_LEN.load(Ordering::SeqCst);
+    if size <= CAP || n == 0 {
+        return false;
+    }
+    use std::io::Write;
+    let mut digits = [0u8; 24];
+    let mut k = digits.len();
+    let mut v = size;
+    loop {
+        k -= 1;
+        digits[k] = b'0' + (v % 10) as u8;
+        v /= 10;
+        if v == 0 {
+            break;
+        }
+    }
+    let mut e = std::io::stderr().lock();
+    let _ = e.write_all(b"\nOVERSIZE-ALLOC bytes=");
+    let _ = e.write_all(&digits[k..]);
+    let _ = e.write_all(b" case=");
+    let _ = e.write_all(unsafe { &(&*std::ptr::addr_of!(CASE_BUF))[..n] });
+    let _ = e.write_all(b"\n");
+    true
+}
+
 unsafe impl GlobalAlloc for Counting {
     unsafe fn alloc(&self, l: Layout) -> *mut u8 {
+        if oversize(l.size()) {
+            return std::ptr::null_mut();
+        }
         let p = System.alloc(l);
         if !p.is_null() {
             let c = CUR.fetch_add(l.size(), Ordering::Relaxed) + l.size();
@@ -20,6 +66,9 @@ unsafe impl GlobalAlloc for Counting {
         System.dealloc(p, l)
     }
     unsafe fn alloc_zeroed(&self, l: Layout) -> *mut u8 {
+        if oversize(l.size()) {
+            return std::ptr::null_mut();
+        }
         let p = System.alloc_zeroed(l);
         if !p.is_null() {
             let c = CUR.fetch_add(l.size(), Ordering::Relaxed) + l.size();
@@ -28,6 +77,9 @@ unsafe impl GlobalAlloc for Counting {
         p
     }
     unsafe fn realloc(&self, p: *mut u8, l: Layout, n: usize) -> *mut u8 {
+        if oversize(n) {
+            return std::ptr::null_mut();
+        }
         let q = System.realloc(p, l, n);
         if !q.is_null() {
             if n >= l.size() {
